@@ -30,7 +30,7 @@ THEOREMS = ['unique_names_fresh', 'unique_names_never_reused', 'unicast_exact', 
             'original_unicast_reaches_rule_holder', 'original_rule_outlives_its_client']
 TRUSTED_BASE = [
     'message parsing and re-serialisation are outside the model: a message is its observable fields plus an '
-    'opaque body token (sha1 of the repr of the decoded body); that the bytes the bus writes decode to the '
+    'opaque body token (digest of byte order + body bytes for client messages, of the decoded values for messages the bus builds); that the bytes the bus writes decode to the '
     'same fields and body is checked by the harness on every delivery (streams bodies-reencode, histories-random)',
     'match-rule evaluation is a parameter of the model (C12 owns router.Rule.match); the driver instantiates it with '
     'equality on interface/member/path/destination, the only keys the harness puts into rules (plus type=signal)',
@@ -99,14 +99,14 @@ def body_token(sig, body):
     """Token of a body the bus builds itself (signals of the name functions): decoded values."""
     if not sig:
         return 'nobody'
-    return sig + ':' + hashlib.sha1(repr(body).encode('utf-8', 'backslashreplace')).hexdigest()[:10]
+    return sig + ':' + hashlib.blake2s(repr(body).encode('utf-8', 'backslashreplace'), digest_size=5).hexdigest()
 
 
 def raw_token(endian, sig, raw_body):
     """Token of a client's body: byte order, signature and the body bytes exactly as on the wire."""
     if not sig and not raw_body:
         return 'nobody' if endian == ord('l') else 'nobody-be'
-    return '%s%s:%s' % ('' if endian == ord('l') else 'B', sig or '', hashlib.sha1(bytes(raw_body)).hexdigest()[:10])
+    return '%s%s:%s' % ('' if endian == ord('l') else 'B', sig or '', hashlib.blake2s(bytes(raw_body), digest_size=5).hexdigest())
 
 
 def tok(x):
@@ -674,7 +674,8 @@ def oracle(net):
                 if receivers != expected:
                     extra = [j for j in receivers if j != owner]
                     copies = receivers.count(owner) if owner is not None else 0
-                    if extra and all(held[j] or dead_rules[j] for j in extra):
+                    if extra and all(any(rule_matches_spec(r, mprime) for r in held[j] + dead_rules[j])
+                                     for j in extra):
                         add('unicast-also-routed-to-rule-holders',
                             'a unicast message for %s (connection %s) also reached connection(s) %s, which only '
                             'hold match rules' % (dest, owner, extra), receivers, expected)
@@ -682,7 +683,8 @@ def oracle(net):
                         add('unicast-delivered-to-wrong-connection', 'a unicast message for %s reached %s'
                             % (dest, extra), receivers, expected)
                     elif copies > 1:
-                        key = 'unicast-also-routed-to-rule-holders' if held[owner] else 'unicast-delivered-twice'
+                        key = ('unicast-also-routed-to-rule-holders'
+                               if any(rule_matches_spec(r, mprime) for r in held[owner]) else 'unicast-delivered-twice')
                         add(key, 'a unicast message for %s reached its destination %d times (the destination holds a '
                             'matching rule)' % (dest, copies), receivers, expected)
                     elif copies == 0:
@@ -990,20 +992,17 @@ def run(ctx):
         go('corpus-and-exemplars', ops)
 
     # every arrival order of <= 3 messages among <= 3 clients
-    if ctx.tier == 'quick' and not ctx.widen:
-        plans = [(2, 3), (3, 2)]
-    else:
-        plans = [(2, 3), (3, 3)]
+    plans = [(2, 3), (3, 3)]
     for n, ln in plans:
         for ops in interleavings(n, ln):
             go('interleavings-exhaustive', ops)
-    ctx.exhaustive = (plans == [(2, 3), (3, 3)])
+    ctx.exhaustive = True
     ctx.note('interleavings enumerated: %s (clients, max messages) over %d message kinds' % (plans, len(KINDS)))
 
     for ops in body_histories():
         go('bodies-reencode', ops)
 
-    n = ctx.scale(quick=700, thorough=9000)
+    n = ctx.scale(quick=450, thorough=9000)
     for k in range(n):
         ln = ctx.rng.choice([8, 12, 20, 30, 45, 60])
         go('histories-random', random_history(ctx.rng, ln))
